@@ -258,3 +258,16 @@ def count_trees(depth, nnames, nbin=7, nun=1):
     for _ in range(depth):
         c = nnames + nun * c + nbin * c * c
     return c
+
+
+def bfs_crosscheck(n):
+    """Explore the structure space by BFS over the build transitions (add_rel, add_child,
+    set_card) with canonical de-duplication and require that the reached state set equals the
+    set produced by the recursive generator and the closed-form count.  Returns
+    (states, transitions)."""
+    init = sh.M(sh.F(NAME_POOL[0]))
+    seen, transitions = bfs(init, structure_successors(n), rename_preorder)
+    ref = set(structures_upto(n))
+    if set(seen) != ref or len(ref) != sum(count_structures(k) for k in range(1, n + 1)):
+        raise AssertionError('structure space enumerations disagree at n=%d: bfs=%d generator=%d' % (n, len(seen), len(ref)))
+    return len(seen), transitions
